@@ -627,6 +627,27 @@ def c10(tier, seed):
     scs = canvas_gen("C10", v, "history", 1, 6 if th else 3, draws=3, salt=seed)
     scs += canvas_gen("C10", v, "history", 4, 4, draws=4, simulate=6000 if th else 350, depth=10, seed=seed, salt=seed)
     scs += drive("C10", "canvas-history", seed + 400, 2500 if th else 300)
+    # a call that paints nothing must leave nothing behind either: clear / fill / fill_rect under an empty, inverted or
+    # off-surface clip rectangle (or an invisible layer) while a non-identity transform is current, then an ordinary fill -
+    # which is replayed on a fresh target with the same transform and must give the same pixels
+    tri = {"ops": [["M", 2, 3], ["L", 18, 5], ["L", 15, 17], ["L", 3, 14]]}
+    red = {"kind": "solid", "c": [255, 255, 0, 0]}
+    o = {"blend": "SrcOver", "alpha": [1, 1], "aa": True}
+    k = 0
+    for tm in ({"op": "set_transform", "m": [1, 0, 0, 1, 1, 1], "mden": 1}, {"op": "set_transform", "m": [1, 0, 0, 1, 1, 2], "mden": 2},
+               {"op": "set_transform", "m": [0, 1, -1, 0, 5, 0], "mden": 1}):
+        for r in ([7, 7, 9, 9], [3, 3, 3, 5], [4, 4, 2, 2], [-9, 0, -2, 5], [0, 0, 5, 0]):
+            for mid in ({"op": "clear", "color": [255, 0, 255, 0]}, {"op": "fill", "path": tri, "src": red, "opts": o},
+                        {"op": "fill_rect", "r": [4, 4, 12, 8], "src": red, "opts": o}):
+                k += 1
+                scs.append({"id": "noop-under-empty-clip-%d" % k, "fam": "canvas", "w": 5, "h": 5, "den": 4, "init": "distinct", "fresh": True,
+                            "calls": [tm, {"op": "push_clip_rect", "r": r}, mid, {"op": "pop_clip"},
+                                      {"op": "fill", "path": tri, "src": red, "opts": o}]})
+        for mid in ({"op": "clear", "color": [255, 0, 255, 0]}, {"op": "fill", "path": tri, "src": red, "opts": o}):
+            k += 1
+            scs.append({"id": "noop-in-invisible-layer-%d" % k, "fam": "canvas", "w": 5, "h": 5, "den": 4, "init": "distinct", "fresh": True,
+                        "calls": [tm, {"op": "push_layer", "opacity": [0, 1], "blend": "SrcOver"}, mid, {"op": "pop_layer"},
+                                  {"op": "fill", "path": tri, "src": red, "opts": o}]})
     v.exhaustive = True
     scs += repo_test_scenarios("C10", v)
     canvas_validate("C10", v, scs, "all", {"C10", "C10I"})
@@ -1181,6 +1202,18 @@ def c08(tier, seed):
     scs += drive("C08", "curve-sweep", seed, 128 if th else 24)
     scs += curve_edge_binding(v, seed, th)
     scs += path_edge_binding(v, seed, th)
+    # large petals: a cubic that returns exactly to the point it starts from is a loop with an interior of hundreds of
+    # pixels (the small loops of the lattice driver are thinner than the oracle's margin) - after MoveTo, after Close, as
+    # the first op after a LineTo, in four orientations, filled and as a clip
+    k = 0
+    for (sx, sy, ax, ay, bx, by) in ((32, 56, 50, -58, -50, -58), (8, 32, 58, 50, 58, -50), (32, 8, -50, 58, 50, 58), (56, 32, -58, -50, -58, 50)):
+        c1, c2 = (sx + ax, sy + ay), (sx + bx, sy + by)
+        for ops in ([["M", sx, sy], ["C", c1[0], c1[1], c2[0], c2[1], sx, sy]],
+                    [["M", sx, sy], ["L", sx + 2, sy], ["L", sx, sy + 2], ["Z"], ["C", c1[0], c1[1], c2[0], c2[1], sx, sy]],
+                    [["L", sx, sy], ["C", c1[0], c1[1], c2[0], c2[1], sx, sy], ["L", sx + 3, sy + 3]]):
+            k += 1
+            scs.append({"id": "petal-%d" % k, "fam": "stroke", "kind": "clip" if k % 4 == 0 else "fill", "w": 64, "h": 64, "den": 1, "ops": ops,
+                        "rule": "EvenOdd" if k % 3 == 0 else "NonZero", "ctm": {"m": [1, 0, 0, 1, 0, 0], "mden": 1}, "stride": 2})
     # design level: the curve-edge machine (CurveEdge.tla) tracks the true quadratic within 3/4 px on every sample row and its
     # subdivision count bounds the flattening error by 1/2 px, for every y-monotonic edge on a lattice (sub-pixel phase by seed)
     r = run_tlc("C08", "MC_CurveEdge", env={"MAXC": 192 if th else 96, "STEP": 24 if th else 16, "OFFS": (seed * 3) % 16}, workers=12, timeout=3000)
